@@ -384,7 +384,33 @@ def run(ctx):
             for value, stmt in leaves:
                 vt = ast.unparse(value)
                 if isinstance(value, ast.Attribute) and value.attr == "machine_id":
-                    chk.ok("R09.e", sstep.qualname, F.loc(stmt), "the -1 sentinel is resolved by operation.machine_id (raises for flexible operations)")
+                    # ... and only for the documented sentinel: an order comparison (`< 0`, `<= -1`) also swallows
+                    # -2, -3, ... which name no machine and must be rejected
+                    guard = F.module.parents.get(stmt)
+                    wide = None
+                    while guard is not None and guard is not F.node:
+                        if isinstance(guard, ast.If) and stmt in list(ast.walk(guard)) and any(stmt in list(ast.walk(b_)) for b_ in guard.body):
+                            for cmp_ in [x for x in ast.walk(guard.test) if isinstance(x, ast.Compare) and len(x.ops) == 1]:
+                                names_ = {y.id for y in ast.walk(cmp_) if isinstance(y, ast.Name)}
+                                if not (names_ & seen_n):
+                                    continue
+                                other = cmp_.comparators[0] if isinstance(cmp_.left, ast.Name) and cmp_.left.id in seen_n else cmp_.left
+                                try:
+                                    k_ = ast.literal_eval(other)
+                                except Exception:
+                                    k_ = None
+                                if isinstance(cmp_.ops[0], (ast.Lt, ast.LtE, ast.Gt, ast.GtE)) and isinstance(k_, int):
+                                    wide = cmp_
+                        guard = F.module.parents.get(guard)
+                    if wide is not None:
+                        chk.violation(
+                            "R09.e", sstep, wide,
+                            f"the machine of the request is replaced under `{ast.unparse(wide)}`, an order comparison: every negative id, not only the "
+                            "sentinel -1, is taken for 'no machine named' - a request with machine id -2 is accepted and dispatched instead of rejected",
+                            loc=F.loc(wide),
+                        )
+                    else:
+                        chk.ok("R09.e", sstep.qualname, F.loc(stmt), "the -1 sentinel is resolved by operation.machine_id (raises for flexible operations)")
                 elif ".machines" in vt:
                     chk.violation(
                         "R09.e", sstep, stmt,
